@@ -167,7 +167,11 @@ class ExecImpl:
                     return "ok"
                 if kind == "obs":
                     return self.observe(op[1])
-        except Exception as e:
+        except BaseException as e:      # noqa: BLE001
+            # formulas of generated programs raise KeyboardInterrupt (with an argument) too: whatever comes out
+            # of the library is an observation; a real Ctrl-C (no argument) is not
+            if isinstance(e, (KeyboardInterrupt, SystemExit)) and not e.args:
+                raise
             return "err " + err_kind(e)
         return "bad-op"
 
